@@ -25,6 +25,7 @@ import PGProofs.CacheThm
 import PGProofs.Glue
 import PGProofs.MomentsThm
 import PGProofs.MemoThm
+import PGProofs.ShareThm
 
 set_option linter.all false
 set_option pp.fieldNotation.generalized false
@@ -83,6 +84,21 @@ theorem memo_getP_theta_defect : (Memo.runAll Memo.Variant.getPNoTheta Memo.toy 
 /-- kernel-checked: in-place += on an array returned from a memoised call -/
 theorem memo_in_place_sum_defect : (Memo.runAll Memo.Variant.inPlaceSum Memo.toy Memo.init [Memo.Query.accumulate { k := 2, endTimes := [1], rewards := [Memo.A, Memo.B], permute := true }, Memo.Query.accumulate { k := 2, endTimes := [1], rewards := [Memo.A, Memo.B], permute := false }]).answers = [5872, 11744] ∧ List.map (Memo.spec Memo.toy) [Memo.Query.accumulate { k := 2, endTimes := [1], rewards := [Memo.A, Memo.B], permute := true }, Memo.Query.accumulate { k := 2, endTimes := [1], rewards := [Memo.A, Memo.B], permute := false }] = [5872, 5952] ∧ (Memo.runAll Memo.Variant.current Memo.toy Memo.init [Memo.Query.accumulate { k := 2, endTimes := [1], rewards := [Memo.A, Memo.B], permute := true }, Memo.Query.accumulate { k := 2, endTimes := [1], rewards := [Memo.A, Memo.B], permute := false }]).answers = [5872, 5952] := @PG.Memo.inPlaceSum_poisons_memo
 
+/-- STATE-SPACE SHARING in Inference.get_coal: every interleaving of get_coal / update_epoch / S reads through any handed-out Coalescent answers like unshared, own-configuration state spaces -/
+theorem share_refinement : ∀ {E M : Type} [inst : BEq E] [LawfulBEq E] (compute : Share.SSKey → E → M), Share.Compat compute → ∀ (useShare : Bool) (key0 : Share.SSKey) (e0 : E) (ops : List (Share.Op E)), (Share.run compute (Share.Inf.init Share.EqVariant.current useShare key0 e0) ops).2 = Share.specRun compute (Share.Spec.init Share.EqVariant.current useShare key0 e0) ops := @PG.Share.share_refinement
+
+/-- a read after update_epoch through a handle returns the rate matrix of THAT configuration in THAT epoch -/
+theorem share_read_own : ∀ {E M : Type} [inst : BEq E] [LawfulBEq E] (compute : Share.SSKey → E → M), Share.Compat compute → ∀ (useShare : Bool) (key0 : Share.SSKey) (e0 : E) (ops : List (Share.Op E)) (j i : ℕ) (e : E) (k : Share.SSKey), ops[j]? = some (Share.Op.query i (Cache.Op.updateEpoch e)) → ops[j + 1]? = some (Share.Op.query i Cache.Op.getS) → (Share.handedOut (List.take j ops))[i]? = some k → (Share.run compute (Share.Inf.init Share.EqVariant.current useShare key0 e0) ops).2[j + 1]? = some (some (compute k e)) := @PG.Share.share_read_own
+
+/-- cache=True and cache=False give the same answers (consumer protocol: update the epoch before reading) -/
+theorem share_cache_flag : ∀ {E M : Type} [inst : BEq E] [LawfulBEq E] (compute : Share.SSKey → E → M), Share.Compat compute → ∀ (key0 : Share.SSKey) (e0 : E) (ops : List (Share.Op E)), Share.disciplined none ops = true → (Share.run compute (Share.Inf.init Share.EqVariant.current true key0 e0) ops).2 = (Share.run compute (Share.Inf.init Share.EqVariant.current false key0 e0) ops).2 := @PG.Share.share_cache_flag_irrelevant
+
+/-- documented: StateSpace.__eq__ (dict equality of lineage configs) ignores the ORDER of the demes; harmless because every consumer reads the axis from the shared state space (Compat discharged by compat_of_order_invariant) -/
+theorem share_eq_deme_order : type_of% @PG.Share.eqKey_current_ignores_deme_order := @PG.Share.eqKey_current_ignores_deme_order   -- (printed statement does not re-elaborate; see the source lemma)
+
+/-- kernel-checked: a key that forgets the locus configuration hands a coalescent the matrix of another recombination rate -/
+theorem share_forgets_locus_defect : Share.eqKey Share.EqVariant.current Share.exK1 Share.exK0 = false ∧ Share.eqKey Share.EqVariant.forgetsLocus Share.exK1 Share.exK0 = true ∧ (Share.run Share.exCompute (Share.Inf.init Share.EqVariant.forgetsLocus true Share.exK0 0) Share.exOps).2 = [none, none, none, some (1, 0), none, some (1, 0)] ∧ (Share.run Share.exCompute (Share.Inf.init Share.EqVariant.current true Share.exK0 0) Share.exOps).2 = [none, none, none, some (1, 0), none, some (2, 0)] ∧ (Share.run Share.exCompute (Share.Inf.init Share.EqVariant.forgetsLocus false Share.exK0 0) Share.exOps).2 = [none, none, none, some (1, 0), none, some (2, 0)] ∧ Share.disciplined none Share.exOps = true := @PG.Share.forgetsLocus_stale
+
 end PG.C17
 
 #print axioms PG.C17.refinement
@@ -102,3 +118,8 @@ end PG.C17
 #print axioms PG.C17.memo_corr_in_place_defect
 #print axioms PG.C17.memo_getP_theta_defect
 #print axioms PG.C17.memo_in_place_sum_defect
+#print axioms PG.C17.share_refinement
+#print axioms PG.C17.share_read_own
+#print axioms PG.C17.share_cache_flag
+#print axioms PG.C17.share_eq_deme_order
+#print axioms PG.C17.share_forgets_locus_defect
